@@ -6,6 +6,8 @@ use crate::driver::DriverError;
 use crate::error::StreamWriteError;
 use crate::VarInt;
 use std::future::pending;
+use std::future::Future;
+use std::pin::Pin;
 use tokio::sync::watch;
 use wtransport_proto::bytes;
 use wtransport_proto::error::ErrorCode;
@@ -75,8 +77,15 @@ impl LocalSettingsStream {
     }
 }
 
+type ReadingFrame = Pin<
+    Box<dyn Future<Output = (StreamUniRemoteH3, Result<Frame<'static>, ProtoReadError>)> + Send>,
+>;
+
 pub struct RemoteSettingsStream {
     stream: Option<StreamUniRemoteH3>,
+    // Frame read in progress. It owns the stream and survives the cancellation of `run`, so
+    // that a frame received in several pieces is not torn when `run` is polled anew.
+    reading: Option<ReadingFrame>,
     settings: watch::Sender<Option<Settings>>,
 }
 
@@ -84,12 +93,13 @@ impl RemoteSettingsStream {
     pub fn empty() -> Self {
         Self {
             stream: None,
+            reading: None,
             settings: watch::channel(None).0,
         }
     }
 
     pub fn is_empty(&self) -> bool {
-        self.stream.is_none()
+        self.stream.is_none() && self.reading.is_none()
     }
 
     pub fn set_stream(&mut self, stream: StreamUniRemoteH3) {
@@ -126,11 +136,27 @@ impl RemoteSettingsStream {
     }
 
     async fn read_frame<'a>(&mut self) -> Result<Frame<'a>, DriverError> {
-        let Some(stream) = self.stream.as_mut() else {
-            return pending().await;
-        };
+        if self.reading.is_none() {
+            let Some(mut stream) = self.stream.take() else {
+                return pending().await;
+            };
 
-        match stream.read_frame().await {
+            self.reading = Some(Box::pin(async move {
+                let result = stream.read_frame().await;
+                (stream, result)
+            }));
+        }
+
+        let (stream, result) = self
+            .reading
+            .as_mut()
+            .expect("frame read in progress")
+            .await;
+
+        self.reading = None;
+        self.stream = Some(stream);
+
+        match result {
             Ok(frame) => Ok(frame),
             Err(ProtoReadError::H3(error_code)) => Err(DriverError::Proto(error_code)),
             Err(ProtoReadError::IO(io_error)) => match io_error {
